@@ -12,9 +12,18 @@ CHECKS = {
  "C04": ("model_checking", "exhaustive feeding of the C01 input space to every parser (own family: all inputs; other families: all bases and all mutants of default bases), all 65,536 type codes for type-parameterised functions, reflective invocation of every exported method with argument menus; recover() + watchdog",
          "Every execution in the bounded space is run to completion under recover(); a panic anywhere or a call exceeding the watchdog is a violation with a replayable input.",
          "No-hang is decided by a generous per-call watchdog in this tier (plus the step-count bound of the instrumented build, see C18 notes)."),
+ "C19": ("model_checking", "differential exhaustive exploration: every pair of equivalent entry points run on the whole bounded input space (E1 + operators + byte-walk) and on the full product of constructor argument menus; builder call sequences enumerated",
+         "For each of 27 parser pairs and 6 constructor pairs, both entry points are executed on every input in the bounded space that lies in the pair's stated domain and must agree on acceptance, serialisation and remainder.",
+         "Domains: declared key types for type-specific readers, permitted types for wrappers; builder compared on codes <= 65535."),
+ "C20": ("model_checking", "exhaustive reflection over every exported type x zero receivers x argument-free methods, plus explicit-state exploration of partial values: every (base, cut point, parser) triple's returned-with-error value x every argument-free method",
+         "The type list is regenerated from /repo's AST at every run, so new types/methods are included automatically; partial values are produced by truncating every base at every field boundary (thorough: every offset).",
+         "nil pointers returned with an error are not called through; mutating methods excluded."),
  "C10": ("exploration", "exhaustive sweep of all 65,536 type codes through every size lookup and behavioural table, against an independent spec table",
          "Every one of the 65,536 signing and crypto codes is pushed through all lookups and length-dependent parsers; all supported pairs x 3 fills for the block layout. Exhaustive over the stated domain, so agreement is decided, not sampled.",
          "Trusts refmodel/tables.go (spec table) and the Go toolchain."),
+ "C11": ("exploration", "exhaustive enumeration of all small Go maps over a string menu, every insertion order, the size-limit family and a byte-walk, against an independent reference encoder",
+         "Every map with <= 3 entries over a 12-string menu, every insertion order of the pair list (n <= 5), payload sizes 65,520..65,550 and string lengths 254/255/256; exhaustive inside those domains.",
+         "Go map iteration order cannot be steered (repeats are a secondary guard); strings outside the menu are not enumerated."),
  "C12": ("exploration", "exhaustive/boundary enumeration of (value,width), dates and string lengths against a math/big reference",
          "Widths 1-2 exhaustive, widths 3-8 boundary sets, every size -2..10, all 65,536 uint16/int16, every string length 0..300 and every (declared,actual) reader pair.",
          "Go int is 64-bit; random interior values of wide integers are not enumerated (boundary sets only)."),
